@@ -60,7 +60,7 @@ PROP = {
             "'retries >= k -> dead_letter' for k in {1,2,3,5} with prior counters k-2..k+1, absent, non-numeric, '+n', ' n', plus random "
             "(k, prior) pairs; topic named by a metadata value, including by the retries header itself; rule: the topic function is applied "
             "to the message as consumed (counter not yet raised) and is shown exactly that metadata, the published message carries counter+1. "
-            "fwd: Forwarder with AckWhenCannotUnwrap off/on x 21 payload classes (wrap, hand-written JSON, minimal, extra fields, "
+            "fwd: Forwarder (default topic and custom topics) with AckWhenCannotUnwrap off/on; destination topics drawn in a third of the cases from a pool holding the forwarder's OWN topic name, look-alikes of it (trailing/leading space, upper case, suffix) and plain names (a valid envelope is forwarded whatever its destination is called); x 21 payload classes (wrap, hand-written JSON, minimal, extra fields, "
             "case-insensitive keys, duplicate keys, nulls, empty destination, no destination, null, {}, garbage, empty, truncated, trailing "
             "bytes, wrong types, bad base64, array, string, number) x destination failing on every k-th message, plus concurrent bursts. "
             "fpub: forwarder.Publisher batches of 0..4 messages, default/custom forwarder topic, empty destination topic, failing wrapped "
